@@ -563,6 +563,22 @@ class Interp:
                     self.assign_target(g.target, x, sub)
                     out.append(self.ev(node.elt, sub))
                 return VList(out)
+        # an untracked comprehension is only sound when evaluating it has no effect: calls to methods of objects the
+        # function can write (decoder.read_bit() ...) inside it would be lost
+        PURE = {'len', 'chr', 'ord', 'str', 'int', 'repr', 'sorted', 'list', 'tuple', 'bytes', 'bytearray', 'format',
+                'isinstance', 'hex', 'bin', 'range', 'zip', 'enumerate', 'reversed', 'min', 'max', 'sum', 'any', 'all',
+                'format_bytes', 'format_or', 'format_and', 'type', 'float', 'bool', 'abs', 'dict', 'set'}
+        for c_ in [x for g_ in node.generators for x in ast.walk(g_)] + list(ast.walk(getattr(node, 'elt', None) or node.key)) + \
+                (list(ast.walk(node.value)) if isinstance(node, ast.DictComp) else []):
+            if isinstance(c_, ast.Call):
+                f_ = c_.func
+                nm_ = f_.id if isinstance(f_, ast.Name) else (f_.attr if isinstance(f_, ast.Attribute) else None)
+                if nm_ in PURE or (isinstance(f_, ast.Attribute) and nm_ in ('get', 'items', 'values', 'keys', 'format', 'join',
+                                                                           'encode', 'decode', 'upper', 'lower', 'split',
+                                                                           'startswith', 'endswith', 'replace', 'strip')):
+                    continue
+                if not fr.spec:
+                    raise OutOfSubset('comprehension over a symbolic iterable calls %s (its effects would be lost)' % nm_)
         self.path.notes.append('untracked comprehension at line %d' % node.lineno)
         return VAbsList('list')
 
